@@ -145,11 +145,28 @@ def run_server_case(phase=None, pkttype=None, body=b'', second=None,
     from asyncssh import _verif
     emitted = []
 
+    # what the server emits AFTER it has received a packet the raw client
+    # injected in the cleartext phase: the k-th packet the client puts on the
+    # wire is the k-th packet the server takes in (FIFO, nothing lost)
+    marks = {'sent': 0, 'recv': 0, 'inj': set(), 'after': None}
+
+    def after_inj():
+        return None if marks['after'] is None else emitted[marks['after']:]
+
     def sink(name, f):
         conn = f.get('conn')
-        if name == 'pkt_out' and conn is not None and conn.is_server() and \
-                f['pkttype'] != 2:
+        if conn is None:
+            return
+        if name == 'pkt_out' and conn.is_server() and f['pkttype'] != 2:
             emitted.append(f['pkttype'])
+        elif name == 'pkt_out' and conn.is_client():
+            marks['sent'] += 1
+            if getattr(conn, '_injecting', False):
+                marks['inj'].add(marks['sent'])
+        elif name == 'pkt_in' and conn.is_server():
+            marks['recv'] += 1
+            if marks['recv'] in marks['inj'] and marks['after'] is None:
+                marks['after'] = len(emitted)
 
     _verif.set_sink(sink)
 
@@ -172,7 +189,7 @@ def run_server_case(phase=None, pkttype=None, body=b'', second=None,
         close_loop(loop)
         return {'seen': [], 'log': log, 'closed': True,
                 'setup_error': repr(exc), 'loop_exceptions': [],
-                'emitted': list(emitted)}
+                'emitted': list(emitted), 'after_inj': after_inj()}
     raw = res['raw']
     loop.run_until_idle()
     raw.take()
@@ -213,7 +230,7 @@ def run_server_case(phase=None, pkttype=None, body=b'', second=None,
     conf = [p for t, p in raw.inbox if t == 91]
     send(98, UInt32(0) + String(b'exec') + Boolean(True) + String(b'cmd'))
     out = {'seen': seen, 'log': list(log), 'closed': bool(res.get('closed')),
-           'emitted': list(emitted),
+           'emitted': list(emitted), 'after_inj': after_inj(),
            'loop_exceptions': [str(c.get('exception') or c.get('message'))
                                for c in loop.exceptions]}
     _verif.set_sink(None)
